@@ -36,28 +36,64 @@ Definition phase (p : pcst) : nat :=
 Definition is_locked (p : pcst) : bool :=
   match p with LSeek | LRead | LUnlock _ => true | _ => false end.
 
-(* what one scheduled action does to (phase, code) of a thread that runs ALONE *)
+Lemma file_read_in content pos len : in_range content pos len = true -> file_read content pos len = sys_read content pos len.
+Proof. unfold file_read. now intros ->. Qed.
+Lemma file_read_oob content pos len : in_range content pos len = false -> file_read content pos len = None.
+Proof. unfold file_read. now intros ->. Qed.
+
+(* what one scheduled action does to (phase, code) of a thread that runs ALONE: a read out of range is
+   answered at once (1 action), a read in range takes 4 actions on either branch *)
 Definition adv {A} (content : bytes) (x : nat * prog A) : nat * prog A :=
   match snd x with
   | Ret _ => x
-  | Rd pos len k => if fst x =? 3 then (0, k (file_read content pos len)) else (S (fst x), snd x)
+  | Rd pos len k =>
+      if ((fst x =? 0) && negb (in_range content pos len)) || (fst x =? 3)
+      then (0, k (file_read content pos len)) else (S (fst x), snd x)
+  end.
+
+Definition read_cost (content : bytes) (pos len : nat) : nat := if in_range content pos len then 4 else 1.
+
+(* the number of actions a reader needs when run alone *)
+Fixpoint steps_seq {A} (content : bytes) (p : prog A) : nat :=
+  match p with
+  | Ret _ => 0
+  | Rd pos len k => read_cost content pos len + steps_seq content (k (file_read content pos len))
   end.
 
 Lemma adv_ret : forall A content n ph (a : A), Nat.iter n (adv content) (ph, Ret a) = (ph, Ret a).
 Proof. induction n as [|n IH]; intros; cbn [Nat.iter nat_rect]; auto. unfold Nat.iter in IH. rewrite IH. reflexivity. Qed.
 
-Lemma adv_four : forall A content pos len (k : option bytes -> prog A),
-  Nat.iter 4 (adv content) (0, Rd pos len k) = (0, k (file_read content pos len)).
-Proof. reflexivity. Qed.
+Lemma adv_mid : forall A content pos len (k : option bytes -> prog A) ph,
+  in_range content pos len = true -> ph < 3 -> adv content (ph, Rd pos len k) = (S ph, Rd pos len k).
+Proof.
+  intros A content pos len k ph Hr Hp. unfold adv. cbn [fst snd]. rewrite Hr, andb_false_r. cbn [orb].
+  destruct (Nat.eqb_spec ph 3); [lia|reflexivity].
+Qed.
+
+Lemma iter_mid : forall A content pos len (k : option bytes -> prog A) n,
+  in_range content pos len = true -> n <= 3 -> Nat.iter n (adv content) (0, Rd pos len k) = (n, Rd pos len k).
+Proof.
+  intros A content pos len k n Hr. induction n as [|n IH]; intros Hn; [reflexivity|].
+  cbn [Nat.iter nat_rect]. unfold Nat.iter in IH. rewrite IH by lia. apply adv_mid; [exact Hr|lia].
+Qed.
+
+Lemma adv_read : forall A content pos len (k : option bytes -> prog A),
+  Nat.iter (read_cost content pos len) (adv content) (0, Rd pos len k) = (0, k (file_read content pos len)).
+Proof.
+  intros A content pos len k. unfold read_cost. destruct (in_range content pos len) eqn:Hr.
+  - change 4 with (1 + 3). rewrite iter_add, iter_mid by auto. cbn [Nat.iter nat_rect].
+    unfold adv. cbn [fst snd Nat.eqb orb]. now rewrite orb_true_r.
+  - cbn [Nat.iter nat_rect]. unfold adv. cbn [fst snd Nat.eqb]. rewrite Hr. reflexivity.
+Qed.
 
 Lemma adv_complete : forall A content (p : prog A) extra,
-  Nat.iter (4 * reads_seq content p + extra) (adv content) (0, p) = (0, Ret (run_seq content p)).
+  Nat.iter (steps_seq content p + extra) (adv content) (0, p) = (0, Ret (run_seq content p)).
 Proof.
-  induction p as [a|pos len k IH]; intros extra; cbn [reads_seq run_seq].
+  induction p as [a|pos len k IH]; intros extra; cbn [steps_seq run_seq].
   - apply adv_ret.
-  - replace (4 * S (reads_seq content (k (file_read content pos len))) + extra)
-      with ((4 * reads_seq content (k (file_read content pos len)) + extra) + 4) by lia.
-    rewrite iter_add, adv_four. apply IH.
+  - replace (read_cost content pos len + steps_seq content (k (file_read content pos len)) + extra)
+      with ((steps_seq content (k (file_read content pos len)) + extra) + read_cost content pos len) by lia.
+    rewrite iter_add, adv_read. apply IH.
 Qed.
 
 (* whatever the count, the code reached is a sequential continuation: if it returned, it returned
@@ -68,10 +104,13 @@ Proof.
   intros A content n. induction n as [n IH] using lt_wf_ind. intros p ph a H.
   destruct p as [b|pos len k].
   - rewrite adv_ret in H. cbn [run_seq]. congruence.
-  - destruct (Nat.lt_ge_cases n 4) as [Hlt|Hge].
-    + exfalso. destruct n as [|[|[|[|n]]]]; try lia; cbv in H; congruence.
-    + replace n with ((n - 4) + 4) in H by lia. rewrite iter_add, adv_four in H.
-      cbn [run_seq]. eapply IH; [|exact H]. lia.
+  - destruct (Nat.lt_ge_cases n (read_cost content pos len)) as [Hlt|Hge].
+    + exfalso. unfold read_cost in Hlt. destruct (in_range content pos len) eqn:Hr.
+      * rewrite iter_mid in H by (auto; lia). congruence.
+      * assert (n = 0) by lia. subst. cbn in H. congruence.
+    + replace n with ((n - read_cost content pos len) + read_cost content pos len) in H by lia.
+      rewrite iter_add, adv_read in H.
+      cbn [run_seq]. eapply IH; [|exact H]. unfold read_cost in *. destruct (in_range content pos len); lia.
 Qed.
 
 (* ------------------------------------------------------------------ tlog *)
@@ -101,10 +140,11 @@ Definition head_ok (s : state A) (th : thread A) : Prop :=
   | Ret _ => pc th = Idle
   | Rd pos len _ =>
     match pc th with
-    | LRead => cursor s = pos                    (* between the holder's seek and read *)
+    | Idle => True
+    | LRead => in_range content pos len = true /\ cursor s = pos    (* between the holder's seek and read *)
     | LUnlock r => r = file_read content pos len
-    | PRead cur => cur = pos
-    | _ => True
+    | PRead cur => in_range content pos len = true /\ cur = pos
+    | _ => in_range content pos len = true                          (* past the range check *)
     end
   end.
 
@@ -206,12 +246,15 @@ Proof.
   { intros cur' lk' thr lg' u thu Hu Hn. specialize (Hhead u thu Hu). unfold head_ok in *. cbn [cursor].
     destruct (code thu); auto. destruct (pc thu); auto. congruence. }
   assert (Hadv_mid : forall pc', phase pc' = S (phase (pc th)) -> phase (pc th) <> 3 ->
+             in_range content pos len = true ->
              (phase pc', code th) = adv content (phase (pc th), code th)).
-  { intros pc' E1 E2. unfold adv. cbn [fst snd]. rewrite Hcode.
-    destruct (Nat.eqb_spec (phase (pc th)) 3); [lia|]. now rewrite E1. }
+  { intros pc' E1 E2 Hr. rewrite Hcode, E1. symmetry. apply adv_mid; [exact Hr|]. destruct (pc th); cbn [phase] in *; lia. }
   assert (Hadv_fin : forall r, phase (pc th) = 3 -> r = file_read content pos len ->
              (phase Idle, k r) = adv content (phase (pc th), code th)).
-  { intros r E1 ->. unfold adv. cbn [fst snd]. rewrite Hcode, E1. reflexivity. }
+  { intros r E1 ->. unfold adv. cbn [fst snd]. rewrite Hcode, E1. cbn [Nat.eqb]. now rewrite orb_true_r. }
+  assert (Hadv_oob : phase (pc th) = 0 -> in_range content pos len = false ->
+             (phase Idle, k None) = adv content (phase (pc th), code th)).
+  { intros E1 Hr. unfold adv. cbn [fst snd]. rewrite Hcode, E1, Hr. cbn. now rewrite (file_read_oob _ _ _ Hr). }
   assert (Hlog_fin : forall r, r = file_read content pos len ->
              Forall (entry_ok content) (log s ++ [(t, pos, len, r)])).
   { intros r ->. apply Forall_app. split; auto. constructor; [|constructor]. cbn. reflexivity. }
@@ -225,22 +268,49 @@ Proof.
              lock s = Some t -> False).
   { intros u thu Hu Hnu Hl Hlk. specialize (Hlock u thu Hnu Hl). congruence. }
   assert (Hlocked_me : is_locked (pc th) = true -> lock s = Some t) by (apply (Hlock t th Hth)).
-  destruct (pc th) eqn:Hpc; cbn [phase is_locked] in *;
-    [ destruct (lock s) as [h|] eqn:Hlk | | | | | | subst cur ];
-    try (assert (Hme : lock s = Some t) by (apply Hlocked_me; reflexivity));
-    (apply Build; cbn [pc code is_locked];
+  (* the eight goals of Build, each closed by the first tactic that applies *)
+  Ltac build_goals Build Hlock Hkeep Hkeep2 Hexcl Hlog Hlog_fin Hadv_mid Hadv_fin Hadv_oob Htl_other Htr_fin Hcode Htt k :=
+    apply Build; cbn [pc code is_locked];
      [ intros u thu Hu Hnu Hl;
        first [ solve [eauto] | exfalso; solve [eauto] | specialize (Hlock u thu Hnu Hl); congruence ]
      | intros; first [ discriminate | assumption | reflexivity | congruence ]
      | intros u thu Hu Hnu;
        first [ solve [eapply Hkeep; eauto]
              | eapply Hkeep2; eauto; intros E; eapply (Hexcl u thu); eauto; now rewrite E ]
-     | unfold head_ok; cbn [code pc cursor]; try rewrite Hht;
-       first [ solve [auto] | destruct (k _); solve [auto] ]
-     | first [ exact Hlog | apply Hlog_fin; auto ]
-     | first [ rewrite <- Hcode; apply Hadv_mid; cbn [phase]; lia | apply Hadv_fin; auto ]
+     | unfold head_ok; cbn [code pc cursor];
+       first [ solve [auto] | solve [split; auto] | match goal with |- match ?x with _ => _ end => destruct x end; solve [auto]
+             | solve [subst; symmetry; apply file_read_in; auto] ]
+     | first [ exact Hlog | apply Hlog_fin; solve [auto | subst; symmetry; apply file_read_in; auto | symmetry; apply file_read_oob; auto] ]
+     | first [ rewrite <- Hcode; apply Hadv_mid; cbn [phase]; solve [auto | lia]
+             | apply Hadv_fin; solve [auto | subst; symmetry; apply file_read_in; auto]
+             | apply Hadv_oob; solve [auto] ]
      | intros; first [ reflexivity | apply Htl_other; auto ]
-     | first [ rewrite <- Hcode; exact Htt | apply Htr_fin; auto ] ]).
+     | first [ rewrite <- Hcode; exact Htt
+             | apply Htr_fin; solve [auto | subst; symmetry; apply file_read_in; auto | symmetry; apply file_read_oob; auto] ] ].
+  destruct (pc th) eqn:Hpc; cbn [phase is_locked] in *.
+  - (* Idle: the range check, then try_lock *)
+    destruct (in_range content pos len) eqn:Hr; cbn [negb].
+    + destruct (lock s) as [h|] eqn:Hlk;
+        build_goals Build Hlock Hkeep Hkeep2 Hexcl Hlog Hlog_fin Hadv_mid Hadv_fin Hadv_oob Htl_other Htr_fin Hcode Htt k.
+    + build_goals Build Hlock Hkeep Hkeep2 Hexcl Hlog Hlog_fin Hadv_mid Hadv_fin Hadv_oob Htl_other Htr_fin Hcode Htt k.
+  - (* LSeek: the holder moves the shared cursor *)
+    assert (Hme : lock s = Some t) by (apply Hlocked_me; reflexivity). pose proof Hht as Hr.
+    build_goals Build Hlock Hkeep Hkeep2 Hexcl Hlog Hlog_fin Hadv_mid Hadv_fin Hadv_oob Htl_other Htr_fin Hcode Htt k.
+  - (* LRead: the holder reads at the cursor it set *)
+    assert (Hme : lock s = Some t) by (apply Hlocked_me; reflexivity). destruct Hht as [Hr Hc].
+    build_goals Build Hlock Hkeep Hkeep2 Hexcl Hlog Hlog_fin Hadv_mid Hadv_fin Hadv_oob Htl_other Htr_fin Hcode Htt k.
+  - (* LUnlock: drop the guard, return *)
+    assert (Hme : lock s = Some t) by (apply Hlocked_me; reflexivity).
+    build_goals Build Hlock Hkeep Hkeep2 Hexcl Hlog Hlog_fin Hadv_mid Hadv_fin Hadv_oob Htl_other Htr_fin Hcode Htt k.
+  - (* POpen *)
+    pose proof Hht as Hr.
+    build_goals Build Hlock Hkeep Hkeep2 Hexcl Hlog Hlog_fin Hadv_mid Hadv_fin Hadv_oob Htl_other Htr_fin Hcode Htt k.
+  - (* PSeek *)
+    pose proof Hht as Hr.
+    build_goals Build Hlock Hkeep Hkeep2 Hexcl Hlog Hlog_fin Hadv_mid Hadv_fin Hadv_oob Htl_other Htr_fin Hcode Htt k.
+  - (* PRead: private cursor *)
+    destruct Hht as [Hr Hc].
+    build_goals Build Hlock Hkeep Hkeep2 Hexcl Hlog Hlog_fin Hadv_mid Hadv_fin Hadv_oob Htl_other Htr_fin Hcode Htt k.
 Qed.
 
 (* lifting to every schedule *)
@@ -331,16 +401,22 @@ Proof.
 Qed.
 
 (* no reader is ever blocked, and the number of actions a reader needs does not depend on the
-   other threads: scheduled 4 x (number of its sequential reads) times it has returned *)
+   other threads: scheduled `steps_seq` times (4 per sequential read in range, 1 per rejected read) it has returned *)
+Lemma steps_seq_bound : forall A content (p : prog A), steps_seq content p <= 4 * reads_seq content p.
+Proof.
+  induction p as [a|pos len k IH]; cbn [steps_seq reads_seq]; [lia|].
+  specialize (IH (file_read content pos len)). unfold read_cost. destruct (in_range content pos len); lia.
+Qed.
+
 Theorem completes : forall A (content : bytes) c0 (ps : list (prog A)) sched t p0,
-  nth_error ps t = Some p0 -> 4 * reads_seq content p0 <= occ t sched ->
+  nth_error ps t = Some p0 -> steps_seq content p0 <= occ t sched ->
   nth_error (threads (run true content (init c0 ps) sched)) t = Some (mkThread Idle (Ret (run_seq content p0))).
 Proof.
   intros A content c0 ps sched t p0 Hp Hocc.
   pose proof (Inv_reachable content ps c0 sched) as I.
   destruct (nth_error (threads (run true content (init c0 ps) sched)) t) as [th|] eqn:Hth.
   - pose proof (inv_prog _ _ _ _ I t th p0 Hth Hp) as E. cbv beta in E.
-    replace (occ t sched) with (4 * reads_seq content p0 + (occ t sched - 4 * reads_seq content p0)) in E by lia.
+    replace (occ t sched) with (steps_seq content p0 + (occ t sched - steps_seq content p0)) in E by lia.
     rewrite adv_complete in E. inversion E as [[E1 E2]].
     pose proof (inv_head _ _ _ _ I t th Hth) as Hh. unfold head_ok in Hh. rewrite E2 in Hh.
     destruct th as [pc0 code0]. cbn [pc code] in *. subst. reflexivity.
@@ -353,12 +429,14 @@ Theorem no_deadlock : forall A ul (content : bytes) (s : state A) t th pos len k
   nth_error (threads s) t = Some th -> code th = Rd pos len k ->
   exists th', nth_error (threads (step ul content s t)) t = Some th' /\
     ((phase (pc th') = S (phase (pc th)) /\ code th' = code th /\ log (step ul content s t) = log s) \/
-     (phase (pc th) = 3 /\ pc th' = Idle /\ exists r, code th' = k r /\ log (step ul content s t) = log s ++ [(t, pos, len, r)])).
+     ((phase (pc th) = 3 \/ (pc th = Idle /\ in_range content pos len = false)) /\ pc th' = Idle /\
+      exists r, code th' = k r /\ log (step ul content s t) = log s ++ [(t, pos, len, r)])).
 Proof.
   intros A ul content s t th pos len k Hth Hc.
   pose proof (nth_error_lt _ _ _ _ Hth) as Hlt.
   unfold step. rewrite Hth, Hc.
-  destruct (pc th) eqn:Hpc; [destruct ul; [destruct (lock s)|]|..]; cbn [threads log];
+  destruct (pc th) eqn:Hpc; [destruct (in_range content pos len) eqn:Hr; cbn [negb]; [destruct ul; [destruct (lock s)|]|]|..];
+    cbn [threads log];
     eexists; (split; [apply nth_error_upd_same; exact Hlt|]); cbn [pc code phase];
     try (left; repeat split; auto; fail); right; repeat split; eauto.
 Qed.
@@ -391,9 +469,9 @@ Definition ex_sched : list nat := [0; 1; 2; 1; 0; 2; 0; 1; 1; 2; 0; 2; 1; 0; 1; 
 (* thread 1 takes the lock first, threads 0 and 2 are contended; later 0 holds it while 1 and 2 are contended *)
 Lemma example_run :
   let s := run true ex_content (init 5 ex_progs) ex_sched in
-  map code (threads s) = [Ret (Some [x0a; x0b]); Ret (Some []); Ret (Some [x0a; x0b])] /\
-  log s = [(1, 3, 2, Some [x0c; x0d]); (0, 0, 1, Some [x02]); (2, 0, 1, Some [x02]); (1, 4, 2, None);
-           (0, 1, 2, Some [x0a; x0b]); (2, 1, 2, Some [x0a; x0b]); (1, 9, 0, Some [])] /\
+  map code (threads s) = [Ret (Some [x0a; x0b]); Ret None; Ret (Some [x0a; x0b])] /\
+  log s = [(1, 3, 2, Some [x0c; x0d]); (0, 0, 1, Some [x02]); (2, 0, 1, Some [x02]); (1, 4, 2, None); (1, 9, 0, None);
+           (0, 1, 2, Some [x0a; x0b]); (2, 1, 2, Some [x0a; x0b])] /\
   lock s = None /\
   run_seq ex_content ex_adaptive = Some [x0a; x0b].
 Proof. vm_compute. repeat split. Qed.
